@@ -1,5 +1,6 @@
 import Gleece.Driver.Router
 import Gleece.Driver.Dialect
+import Gleece.Driver.DocCheck
 open Lean
 namespace Gleece.Driver
 open Gleece.IR
@@ -13,6 +14,8 @@ def irHandler : Handler := fun prop input impl => do
     | "C06" => pure (checkC06 d implJ)
     | "C02" | "C03" | "C05" | "C12" => pure (checkRouter prop d implJ)
     | "C11" => pure (checkC11 d implJ)
+    | "C08" => pure (checkC08 d implJ)
+    | "C14" => pure (checkC14 d implJ)
     | p => throw s!"mode ir: no check for property {p}"
   let tag (pre : String) (f : String) :=
     if f.length > 4 && f.get 0 = 'C' && (f.splitOn "-F").length > 1 && (f.splitOn ":").length > 1 && ((f.splitOn ":")[0]!).length ≤ 8
